@@ -14,7 +14,7 @@ import vlib
 from vlib import coqlist, zlit
 
 PROPERTY = "C04"
-MODEL_TARGETS = ["Model/C04AddrMap.vo"]
+MODEL_TARGETS = ["Model/C04AddrMap.vo", "Model/C04Csr.vo"]
 RULE = ("part A: streamer configurations with 1-30 streamers (>26 exercises the name truncation), 0-7 temporal "
         "dims, 0-3 spatial dims, every subset of {address-remap, channel-mask, byte-mask, broadcast, transpose} plus "
         "0-3 DMA extensions (real classes and synthetic names / csr lengths 0-5, duplicate names in the malformed "
